@@ -15,7 +15,9 @@
 (***************************************************************************)
 EXTENDS PromQLRef, Json
 
-CONSTANT TraceFile
+CONSTANT TraceFile,
+         WFOnly      \* TRUE: only the well-formedness clauses and the engine / reference comparison are evaluated
+                     \* (C19's check; PromQLRef's denotation of the scenario is not computed)
 Trace == ndJsonDeserialize(TraceFile)
 
 VARIABLES l, cur, eng, ref, cmpok, viol, stat, calib
@@ -121,7 +123,7 @@ EndEv ==
   /\ LET sc == cur
          done == eng.kind # "none" \/ eng.err # ""
          gr == GridRes(sc)
-         structural == sc.spec /\ ~AnyUnk(gr)
+         structural == ~WFOnly /\ sc.spec /\ ~AnyUnk(gr)
          tie == sc.spec /\ AnyTie(sc)
          refok == structural /\ AgreesWithSpec(sc, gr, ref)
          engok == AgreesWithSpec(sc, gr, eng)
@@ -146,7 +148,7 @@ EndEv ==
                                      !.calibrated = @ + (IF refok THEN 1 ELSE 0),
                                      !.calibmiss = @ + (IF structural /\ ~refok THEN 1 ELSE 0),
                                      !.specerr = @ + (IF structural /\ AnyErr(gr) THEN 1 ELSE 0),
-                                     !.tie = @ + (IF tie THEN 1 ELSE 0)]
+                                     !.tie = @ + (IF ~WFOnly /\ tie THEN 1 ELSE 0)]
   /\ UNCHANGED <<cur, eng, ref, cmpok>>
 
 \* any other event kind (operator events are StreamTrace's business) is consumed silently
